@@ -58,6 +58,7 @@ unpickled_bytes.decl = externals.pickle_fns(TBytes)[1]
 TRACE = TList(TTuple(TStr, TBytes))
 ghost_var("sent", TRACE)       # messages handed to the websocket: (type, content)
 reply_ok = specfn("reply_ok", [TBytes], TBool, doc="the pickled reply carries ok == True")
+reply_state = specfn("reply_state", [TBytes], TInt, doc="the state field of a pickled init echo")
 OI = sort(TOpt(TInt))
 OBy = sort(TOpt(TBytes))
 
@@ -145,6 +146,9 @@ def _dumps_reply(E, a, kw, fr, node):
         r = E.fresh("reply", TBytes)
         ok = E.cell(v)[1]["ok"]
         E.assume(reply_ok(r.t) == E.truth_term(ok))
+        if "state" in E.cell(v)[1]:
+            from pyvc.engine import z3_int as _zi
+            E.assume(reply_state(r.t) == _zi(E.cell(v)[1]["state"]))
         return r
     return _orig_dumps(E, a, kw, fr, node)
 
@@ -158,7 +162,7 @@ klass(SV_, fields=dict(sid=TStr, service_meta=TPyDict(dict(state=TInt)), config=
       invariant=["0 <= self.service_meta['state']", "self.service_meta['state'] <= 2"],
       consts={"sse_module_loader": Opaque("loader"), "config_object": Opaque("cfg"), "sse_scheme": Opaque("scheme"), "edb": Opaque("edb"),
               "websocket": Opaque("ws"), "config": Opaque("config")})
-inline(SV_ + ".get_current_service_state", SV_ + "._store_service_meta")
+inline(SV_ + ".get_current_service_state", SV_ + "._store_service_meta", SV_ + ".send_init_echo")
 ST_ = "self.service_meta['state']"
 SRV_GHOSTS = ["srv_dir", "srv_meta", "srv_cfg", "srv_edb", "sent"]
 # Inv: the in-memory state is the recorded state (0 <=> no record); files exist for the states that need them
@@ -192,3 +196,25 @@ contract(SV_ + ".handle_search_token", params=dict(self=SVT, token_bytes=TBytes,
          no_runtime=True, modifies_ghost=SRV_GHOSTS, props=["C10", "C09"])
 contract(SV_ + ".close_service", params=dict(self=SVT), modifies=["self"], requires=INV,
          ensures=INV + UNCHANGED + ["%s == old(%s)" % (ST_, ST_), "sent == old(sent)"], no_runtime=True, modifies_ghost=SRV_GHOSTS, props=["C10", "C13"])
+
+
+# ---- the loader: a (re)connecting client is told exactly the recorded state, and nothing on disk changes ------------------------
+@effect(SFM + "read_service_meta", "D1: reads <sid>/service_meta (the recorded state)")
+def _rmeta(E, a, kw, fr, node):
+    d = E.ghostv["srv_meta"]
+    st = SV(sort(TOpt(TInt)).val(z3.Select(d.t, _sid(E, a[0]))), TInt)
+    return E.alloc(("pydict", {"state": st}))
+
+
+@effect(SFM + "read_service_config", "D1: reads <sid>/config.json")
+def _rcfg(E, a, kw, fr, node):
+    return Opaque("config")
+
+
+DISK_OK = ["implies(sid in srv_meta, 0 < srv_meta[sid] and srv_meta[sid] <= 2 and sid in srv_dir and sid in srv_cfg)",
+           "implies(sid in srv_meta and srv_meta[sid] == 2, sid in srv_edb)"]
+contract(SV_ + ".__init__", params=dict(self=SVT, sid=TStr, websocket=TAny), modifies=["self"], requires=DISK_OK,
+         ensures=INV + ["self.sid == sid", "%s == (srv_meta[sid] if sid in srv_meta else 0)" % ST_,
+                        "len(sent) == len(old(sent)) + 1", "sent[len(sent) - 1][0] == 'init'", "reply_ok(sent[len(sent) - 1][1])",
+                        "reply_state(sent[len(sent) - 1][1]) == %s" % ST_],
+         no_runtime=True, modifies_ghost=["sent"], props=["C10", "C13", "C09"])
